@@ -84,6 +84,9 @@ pub struct Case {
     pub n_validators: u32,
     /// commission per validator in 1/10000
     pub commissions: Vec<u32>,
+    /// max_commission per validator in 1/10000 (may be below the commission: the simulator accepts that)
+    #[serde(default)]
+    pub max_commissions: Vec<u32>,
     /// annual rate in 1/10000
     pub apr: u32,
     pub unbonding_secs: u64,
@@ -927,6 +930,7 @@ pub fn build(case: &Case) -> Run {
     let addrs2 = addrs.clone();
     let vals2 = validators.clone();
     let comm2 = commissions.clone();
+    let maxc2: Vec<u32> = (0..nv).map(|i| case.max_commissions.get(i).copied().unwrap_or(10_000).min(10_000)).collect();
     let mut app: SimApp = BasicAppBuilder::<SimMsg, SimQuery>::new_custom()
         .with_api(api)
         .with_storage(SimStorage::new())
@@ -952,7 +956,7 @@ pub fn build(case: &Case) -> Run {
                 router
                     .staking
                     .inner
-                    .add_validator(api, storage, &block, Validator::create(v.clone(), Decimal::from_ratio(comm2[i], 10_000u128), Decimal::one(), Decimal::one()))
+                    .add_validator(api, storage, &block, Validator::create(v.clone(), Decimal::from_ratio(comm2[i], 10_000u128), Decimal::from_ratio(maxc2[i], 10_000u128), Decimal::one()))
                     .unwrap();
             }
         });
@@ -1081,6 +1085,7 @@ impl Engine for StakeSim {
         let nv = 2 + rng.below(3) as u32;
         let rates = [0u32, 1, 500, 1000, 1234, 2500, 5000, 9999, 10_000];
         let commissions = (0..nv).map(|_| *rng.pick(&rates)).collect();
+        let max_commissions = (0..nv).map(|_| if rng.chance(1, 2) { 10_000 } else { *rng.pick(&rates) }).collect();
         let apr = *rng.pick(&[0u32, 1, 300, 1000, 1000, 2500, 7777, 10_000]);
         let unbonding_secs = *rng.pick(&[0u64, 1, 60, 60, 3600, 86_400, 21 * 86_400, 30 * 86_400]);
         let nops = 10 + rng.usize(if cfg.tier == Tier::Thorough { 110 } else { 50 });
@@ -1163,6 +1168,7 @@ impl Engine for StakeSim {
             contract_delegator: rng.chance(1, 3),
             n_validators: nv,
             commissions,
+            max_commissions,
             apr,
             unbonding_secs,
             init_balance: *rng.pick(&[10u64, 1000, 100_000, 1_000_000_000]),
